@@ -6,3 +6,4 @@ import GormModel.Props.C15
 import GormModel.Props.C19
 import GormModel.Props.C18
 import GormModel.Props.C17
+import GormModel.Props.C05
